@@ -358,7 +358,13 @@ func (m *ldbManager) Add(transaction Transaction) error {
 	m.changes.Lock()
 	defer m.changes.Unlock()
 
-	frontierIdentifier := GetFrontierIdentifier(db)
+	// compare with the manager's current frontier, not with the frontier recorded in the parent's own view
+	snapshot, err := m.ldb.GetSnapshot()
+	if err != nil {
+		return err
+	}
+	frontierIdentifier := GetFrontierIdentifier(NewLevelDBSnapshotWrapper(snapshot).Subset(frontierByte))
+	snapshot.Release()
 
 	if previous == frontierIdentifier {
 		if err := m.ldb.Put(common.JoinBytes(patchByte, common.Uint64ToBytes(identifier.Height)), patch.Dump(), nil); err != nil {
